@@ -167,6 +167,9 @@ def oracle_C08(results, metas, st):
         if abs(sum(new) - 1) > (2 * n + 4) * fmt.u:
             out.append(viol('refined weights sum to %s' % float(sum(new)), [c])); continue
         floor = minw / (1 + n * minw)
+        if any(w != 0 and d > 0 and x == 0 for w, d, x in zip(ws, data, new)) and all(d == 0 or Fraction(2) ** -40 < d < Fraction(2) ** 40 for d in data):
+            out.append(viol('an enabled channel with a positive adjustment datum lost its weight: %s -> %s (data %s)' %
+                            ([fstr(w) for w in ws], [fstr(x) for x in new], [fstr(d) for d in data]), [c])); continue
         for w, d, x in zip(ws, data, new):
             if w != 0 and d > 0 and x < floor * (1 - 8 * fmt.u):
                 out.append(viol('enabled channel with positive datum got weight %s below the floor %s' % (float(x), float(floor)), [c])); break
@@ -771,4 +774,268 @@ def oracle_C01(results, metas, st):
             den = sum(w * d for w, d in zip(ws, dens)); w = parse_tok(cx[1])
             if den != 0 and isnum(w) and abs(w - j / den) > (2 * len(ws) + 4) * fmt.u * abs(j / den):
                 out.append(viol('channel weight %s is not jacobian / sum(alpha_j x density_j) = %s' % (fstr(w), fstr(j / den)), [c]))
+    return out
+
+
+# ---- C02: recompute every iteration result from the values the integrand returned ----------------------
+def emu_poly(fmt, ab, xs):
+    acc = Fraction(1)
+    for (a, b), x in zip(ab, xs):
+        t = fmt.round(b * x)
+        if not isnum(t): return None
+        t = fmt.round(a + t)
+        if not isnum(t): return None
+        acc = fmt.round(acc * t)
+        if not isnum(acc): return None
+    return acc
+
+def oracle_C02(results, metas, st):
+    out = []
+    for r, m in zip(results, metas):
+        cx = r['cxx']
+        if not isinstance(cx, list) or r['case'][2] != 'run': continue
+        spec = r['case'][3]; fmt = FMTS[r['case'][1]]
+        get = lambda k, d=None: next((e[1] for e in spec if isinstance(e, list) and e and e[0] == k), d)
+        if not get('trace'): continue
+        kind = get('kind'); f = get('f'); ops = get('ops')
+        if any(op[0] not in ('run', 'mpi', 'dump') for op in ops): continue
+        is_mpi = any(op[0] == 'mpi' for op in ops)
+        if kind == 'mc' and not get('wants'): continue            # the weight is visible to the integrand only on request
+        items = find_items(cx, 'mpi' if is_mpi else 'run')
+        ds = dumps_of(cx)
+        if not items or not ds: continue
+        rs = chk_results(ds[-1])
+        # events of all ranks (MPI) or of the run, split by iteration through the call counts
+        calls_list = [c for op in ops if op[0] in ('run', 'mpi') for c in op[1]]
+        if is_mpi:
+            P = [op for op in ops if op[0] == 'mpi'][0][2]
+            ranks = find_items(items[0], 'rank')
+            streams = [[e for e in (find_items(rk, 'events') or [['events']])[0][1:] if e[0] == 'f'] for rk in ranks]
+        else:
+            P = 1
+            streams = [[e for it in items for e in (find_items(it, 'events') or [['events']])[0][1:] if e[0] == 'f']]
+        pos = [0] * P
+        tabs = f[1] if f[0] == 'tab' else None
+        for k, res in enumerate(rs):
+            if k >= len(calls_list): break
+            N = calls_list[k]
+            evs = []
+            for rr in range(P):
+                sub = N // P + (1 if rr < N % P else 0)
+                evs += streams[rr][pos[rr]:pos[rr] + sub]; pos[rr] += sub
+            calls, nz, fin, sm, ss = res['main']
+            if calls != N:
+                out.append(viol('iteration %d asked for %d calls reports calls = %d' % (k, N, calls), [r['case']])); break
+            if len(evs) != N:
+                out.append(viol('iteration %d asked for %d calls evaluated the integrand %d times' % (k, N, len(evs)), [r['case']])); break
+            vals = []
+            ok = True
+            for e in evs:
+                idx = e[1]; pt = [parse_tok(x) for x in (e[3] if kind == 'mc' else e[2])]
+                if len(e) < 7: ok = False; break
+                w = parse_tok(e[6])
+                if f[0] == 'tab': v = parse_tok(tabs[idx % len(tabs)])
+                else:
+                    if not all(isnum(x) for x in pt): ok = False; break
+                    v = emu_poly(fmt, [(parse_tok(a), parse_tok(b)) for a, b in f[1]], pt)
+                    if v is None: ok = False; break
+                vals.append((v, w, e))
+            if not ok: break
+            def prod(v, w):
+                if not isnum(v) or not isnum(w):
+                    if v == '-0' or w == '-0': return Fraction(0)
+                    return 'nonfinite'
+                p = fmt.round(v * w)
+                return p if isnum(p) else 'nonfinite'
+            nonzero = [(v, w) for v, w, e in vals if not (isnum(v) and v == 0) and v != '-0']
+            prods = [prod(v, w) for v, w in nonzero]
+            want_nz = len(nonzero); kept = [p for p in prods if p != 'nonfinite']
+            if nz != want_nz or fin != len(kept):
+                out.append(viol('iteration %d: non_zero_calls = %d, finite_calls = %d; the sampled values have %d non-zero and %d finite non-zero evaluations' %
+                                (k, nz, fin, want_nz, len(kept)), [r['case']])); break
+            sm, ss = parse_tok(sm), parse_tok(ss)
+            exact = sum(kept, Fraction(0)); mag = sum((abs(p) for p in kept), Fraction(0)); exact2 = sum((p * p for p in kept), Fraction(0))
+            if isnum(sm) and abs(sm - exact) > (8 + 2 * P) * fmt.u * mag + 20 * len(kept) * fmt.u ** 2 * mag + Fraction(2) ** (fmt.emin + 6) * (len(kept) + 1):
+                out.append(viol('iteration %d: sum = %s but the finite non-zero values f*w add up to %s' % (k, fstr(sm), fstr(exact)), [r['case']])); break
+            if isnum(ss) and isnum(fmt.round(exact2)) and abs(ss - exact2) > (2 * len(kept) + 2 * P + 4) * fmt.u * exact2 + Fraction(2) ** (fmt.emin + 6) * (len(kept) + 1):
+                out.append(viol('iteration %d: sum of squares = %s but the squares (f*w)^2 add up to %s' % (k, fstr(ss), fstr(exact2)), [r['case']])); break
+            # VEGAS adjustment data: per-bin sums of (f*w)^2
+            if kind == 'vegas' and len(res['extra']) == 2:
+                pdf, adj = res['extra']
+                bins, dims = pdf[0], pdf[1]
+                want = [Fraction(0)] * (bins * dims); bad = False
+                for v, w, e in vals:
+                    p = prod(v, w) if not (isnum(v) and v == 0) and v != '-0' else Fraction(0)
+                    if p == 'nonfinite' or p == 0: continue
+                    sq = fmt.round(p * p)
+                    if not isnum(sq): bad = True; break
+                    for j, b in enumerate(e[5]):
+                        if j * bins + b < len(want): want[j * bins + b] += sq
+                if not bad and len(adj) == len(want):
+                    for i, (a, wv) in enumerate(zip(adj, want)):
+                        a = parse_tok(a)
+                        if isnum(a) and abs(a - wv) > (2 * N + 2 * P + 4) * fmt.u * wv + Fraction(2) ** (fmt.emin + 6) * (N + 1):
+                            out.append(viol('iteration %d: VEGAS adjustment datum of dimension %d, bin %d is %s but the squares (f*w)^2 of the points in that bin add up to %s' %
+                                            (k, i // bins, i % bins, fstr(a), fstr(wv)), [r['case']])); bad = True; break
+                if bad: break
+    return out
+
+# ---- C11: every fill goes to the bin that contains its coordinate ----------------------------------------
+def oracle_C11(results, metas, st):
+    out = []
+    for r, m in zip(results, metas):
+        cx = r['cxx']
+        if not isinstance(cx, list) or r['case'][2] != 'run': continue
+        spec = r['case'][3]; fmt = FMTS[r['case'][1]]
+        get = lambda k, d=None: next((e[1] for e in spec if isinstance(e, list) and e and e[0] == k), d)
+        kind = get('kind'); fills = get('fills'); tables = get('tables', []); f = get('f'); ops = get('ops')
+        ds = dumps_of(cx)
+        if not ds or not fills: continue
+        rs = chk_results(ds[-1])
+        for k, res in enumerate(rs):
+            for (par, bins) in res['dists']:
+                if any(b[0] != res['main'][0] for b in bins):
+                    out.append(viol('a bin of iteration %d reports %s calls, the iteration made %d' % (k, [b[0] for b in bins][:4], res['main'][0]), [r['case']])); break
+        if not get('trace') or any(op[0] != 'run' and op[0] != 'dump' for op in ops): continue
+        if kind == 'mc' and not get('wants'): continue
+        evs = [e for it in find_items(cx, 'run') for e in (find_items(it, 'events') or [['events']])[0][1:] if e[0] == 'f']
+        calls_list = [c for op in ops if op[0] == 'run' for c in op[1]]
+        tabs = f[1] if f[0] == 'tab' else None
+        pos = 0
+        for k, res in enumerate(rs):
+            if k >= len(calls_list): break
+            N = calls_list[k]; mine = evs[pos:pos + N]; pos += N
+            if len(mine) != N: break
+            ndist = len(res['dists'])
+            lo = [[0] * len(b) for (p_, b) in res['dists']]; hi = [[0] * len(b) for (p_, b) in res['dists']]
+            ok = True
+            for e in mine:
+                idx = e[1]; w = parse_tok(e[6]) if len(e) >= 7 else None
+                if w is None: ok = False; break
+                pt = [parse_tok(x) for x in e[2]]; co = [parse_tok(x) for x in e[3]]
+                if f[0] == 'tab': v = parse_tok(tabs[idx % len(tabs)])
+                else:
+                    xs = co if kind == 'mc' else pt
+                    v = emu_poly(fmt, [(parse_tok(a), parse_tok(b)) for a, b in f[1]], xs) if all(isnum(x) for x in xs) else None
+                    if v is None: ok = False; break
+                def src(sx):
+                    if sx[0] == 'p': return pt[sx[1]] if sx[1] < len(pt) else Fraction(0)
+                    if sx[0] == 'c': return co[sx[1]] if sx[1] < len(co) else Fraction(0)
+                    if sx[0] == 't': return parse_tok(tables[sx[1]][idx % len(tables[sx[1]])])
+                    if sx[0] == 'v': return v
+                    return parse_tok(sx[1])
+                for fs in fills:
+                    j = fs[0]
+                    if j >= ndist: continue
+                    par, bins = res['dists'][j]
+                    bx, by = par[0], par[1]
+                    xmin, ymin, bsx, bsy = (parse_tok(par[2]), parse_tok(par[3]), parse_tok(par[4]), parse_tok(par[5]))
+                    val = src(fs[3]); x = src(fs[1]); y = src(fs[2]) if fs[2] != '-' else None
+                    def fin(z): return isnum(z) or z == '-0'
+                    if not fin(val) or not fin(w): continue
+                    pv = fmt.round((Fraction(0) if val == '-0' else val) * (Fraction(0) if w == '-0' else w))
+                    if not isnum(pv): continue
+                    def axis(c, cmin, size, n):
+                        """set of possible bin indices (None = outside)"""
+                        if c == '-0': c = Fraction(0)
+                        if not isnum(c) or not isnum(size) or size <= 0 or not isnum(cmin): return {None} if not isnum(c) else {'?'}
+                        p = (c - cmin) / size
+                        kk = p.numerator // p.denominator
+                        cand = {kk if 0 <= kk < n else None}
+                        near = p - kk
+                        tol = 8 * fmt.u * max(1, abs(p)) + 8 * fmt.u * (abs(c) + abs(cmin)) / size
+                        if near <= tol: cand.add(kk - 1 if 0 <= kk - 1 < n else None)
+                        if 1 - near <= tol: cand.add(kk + 1 if 0 <= kk + 1 < n else None)
+                        return cand
+                    cx_ = axis(x, xmin, bsx, bx)
+                    cy_ = axis(y, ymin, bsy, by) if y is not None else {0}
+                    if '?' in cx_ or '?' in cy_: ok = False; break
+                    cells = set()
+                    for a in cx_:
+                        for b in cy_:
+                            cells.add(None if a is None or b is None else b * bx + a)
+                    if len(cells) == 1:
+                        c0 = next(iter(cells))
+                        if c0 is not None and c0 < len(lo[j]): lo[j][c0] += 1; hi[j][c0] += 1
+                    else:
+                        for c0 in cells:
+                            if c0 is not None and c0 < len(hi[j]): hi[j][c0] += 1
+                if not ok: break
+            if not ok: break
+            for j, (par, bins) in enumerate(res['dists']):
+                for b, bn in enumerate(bins):
+                    if not (lo[j][b] <= bn[1] <= hi[j][b]):
+                        out.append(viol('iteration %d, distribution %d, bin %d (x index %d, y index %d) received %d fills; between %d and %d fills have their coordinate in that bin' %
+                                        (k, j, b, b % par[0], b // par[0], bn[1], lo[j][b], hi[j][b]), [r['case']])); ok = False; break
+                if not ok: break
+            if not ok: break
+    return out
+
+# ---- C13: formulas and laws of the combiners --------------------------------------------------------------
+def c13_moments(fmt, r):
+    """(E, V, conditioning) of a result [calls, nz, fin, sum, sumsq] in exact arithmetic; None if not usable"""
+    n = r[0]; s, q = parse_tok(r[3]), parse_tok(r[4])
+    if n < 2 or not isnum(s) or not isnum(q): return None
+    e = s / n; v = (q / n - e * e) / (n - 1)
+    if v <= 0: return None
+    kappa = (q / n) / (v * (n - 1))
+    return e, v, kappa
+
+def oracle_C13(results, metas, st):
+    out = []
+    by_id = {r['case'][0]: r for r in results}
+    for r, m in zip(results, metas):
+        c = r['case']; cx = r['cxx']; fmt = FMTS[c[1]]
+        if c[2] == 'chi2' and isinstance(cx, list) and len(cx) == 1:
+            rs = c[3][1]; v = parse_tok(cx[0])
+            if len(rs) == 1 and v != 'inf':
+                out.append(viol('chi^2/dof of a single result is %s, not infinite' % fstr(v), [c]))
+            if len(rs) == 0 and not (isnum(v) and v == 0):
+                out.append(viol('chi^2/dof of no result is %s, not 0' % fstr(v), [c]))
+            moms = [c13_moments(fmt, x) for x in rs]
+            # (only for well-conditioned inputs: a variance that is positive in exact arithmetic can come out negative in the format)
+            if isnum(v) and v < 0 and all(mo is not None and mo[2] * fmt.u * 256 < Fraction(1, 1000) for mo in moms):
+                out.append(viol('chi^2/dof is negative: %s' % fstr(v), [c]))
+        if c[2] in ('wwv', 'weq') and isinstance(cx, list) and len(cx) == 5:
+            rs = c[3][0]
+            if cx[0] != sum(x[0] for x in rs) or cx[1] != sum(x[1] for x in rs) or cx[2] != sum(x[2] for x in rs):
+                out.append(viol('combined counters %s are not the sums of the counters of the results' % cx[:3], [c])); continue
+            moms = [(x, c13_moments(fmt, x)) for x in rs]
+            live = [(x, mo) for x, mo in moms if (x[2] != 0 if c[2] == 'wwv' else True)]
+            if not live or any(mo is None for x, mo in live): continue
+            if max(mo[2] for x, mo in live) * fmt.u * 256 > Fraction(1, 1000): continue
+            om = c13_moments(fmt, cx)
+            if om is None or om[2] * fmt.u * 256 > Fraction(1, 1000): continue
+            E, V = om[0], om[1]
+            es = [mo[0] for x, mo in live]; vs = [mo[1] for x, mo in live]
+            tol = Fraction(1, 500)
+            if c[2] == 'wwv':
+                wE = sum(e / v for e, v in zip(es, vs)) / sum(1 / v for v in vs); wV = 1 / sum(1 / v for v in vs)
+                scale_ = max(abs(wE), max(abs(e) for e in es))
+                if abs(E - wE) > tol * (scale_ + (wV ** Fraction(1)) ** Fraction(1)) and abs(E - wE) ** 2 > tol * tol * wV:
+                    out.append(viol('variance-weighted estimate %s differs from sum(E_i/S_i^2)/sum(1/S_i^2) = %s' % (fstr(E), fstr(wE)), [c])); continue
+                if abs(V - wV) > tol * wV:
+                    out.append(viol('variance of the combination %s differs from 1/sum(1/S_i^2) = %s' % (fstr(V), fstr(wV)), [c])); continue
+                if V > min(vs) * (1 + tol):
+                    out.append(viol('combined error exceeds the smallest individual error', [c])); continue
+            elif len(live) >= 2:
+                mE = sum(es) / len(es)
+                if abs(E - mE) > tol * max(abs(e) for e in es):
+                    out.append(viol('equally weighted estimate %s differs from the mean %s' % (fstr(E), fstr(mE)), [c])); continue
+    for r in results:
+        cx = r['cxx']
+        if r['case'][2] != 'run' or not isinstance(cx, list): continue
+        # combining results that carry distributions: every distribution keeps its parameters and bin count
+        ds = None
+        for x in cx:
+            if isinstance(x, list) and x and x[0] == 'combine' and isinstance(x[1], list) and x[1] and x[1][0] == 'ok':
+                dists = x[1][2]
+                spec_d = next((e[1] for e in r['case'][3] if e[0] == 'dists'), [])
+                iters = len([1 for it in find_items(cx, 'run') for _ in it[1][1:]])
+                if iters == 0: continue
+                if len(dists) != len(spec_d):
+                    out.append(viol('the combination of results with %d distributions has %d' % (len(spec_d), len(dists)), [r['case']])); break
+                for d, sd in zip(dists, spec_d):
+                    if len(d[1]) != sd[0] * sd[1]:
+                        out.append(viol('a combined %d x %d distribution has %d bins' % (sd[0], sd[1], len(d[1])), [r['case']])); break
     return out
